@@ -82,9 +82,20 @@ ZeroMsgs(k) == LET z == ZeroF(NB, k) f1 == Fld(NA, "int32", 1) f2 == Fld(<<99>>,
                 [what |-> W0, fields |-> <<[name |-> <<109>>, type |-> TC_MESSAGE, items |-> <<inner, [what |-> <<0, 0, 0, 0>>, fields |-> <<>>], inner>>]>>]}
 Zeros == {[m |-> mm, d |-> dd] : mm \in UNION {ZeroMsgs(k) : k \in Kinds}, dd \in {0, 1}}
 
+\* NON-flattenable fields (C++ AddPointer / AddTag, mini MMPutPointerField) next to ordinary ones, first / middle / last / several, with 1..3 items, and inside
+\* sub-Messages (one-item and two-item Message fields): they are part of the Message but Flatten skips them and the field count word does not count them
+NF(nm, tc, c) == [name |-> nm, type |-> tc, items |-> [j \in 1..c |-> <<>>]]
+NonFlatMsgs(k) == LET f1 == Fld(NA, k, 2) f2 == Fld(<<99>>, "string", 2) p == NF(NB, TC_POINTER, 1) p3 == NF(<<112>>, TC_POINTER, 3) t == NF(<<116>>, TC_TAG, 2)
+                      inner == [what |-> <<9, 0, 0, 0>>, fields |-> <<f1, p, f2>>] IN
+                  {[what |-> W0, fields |-> <<p>>], [what |-> W0, fields |-> <<p, f1>>], [what |-> W0, fields |-> <<f1, p3, f2>>], [what |-> W0, fields |-> <<f2, f1, t>>],
+                   [what |-> W0, fields |-> <<p, f1, t, f2, p3>>],
+                   [what |-> W0, fields |-> <<[name |-> <<109>>, type |-> TC_MESSAGE, items |-> <<inner>>], p3, f2>>],
+                   [what |-> W0, fields |-> <<t, [name |-> <<109>>, type |-> TC_MESSAGE, items |-> <<inner, [what |-> <<0, 0, 0, 0>>, fields |-> <<p>>]>>]>>]}
+NonFlats == {[m |-> mm, d |-> dd] : mm \in UNION {NonFlatMsgs(k) : k \in {"int32", "string", "raw", "message", "bool"}}, dd \in {0, 1, 3}}
+
 \* every detour for the single-field, nested and long vectors; one detour (varying with the item counts and the field order) per pair
 AllD(S) == {[m |-> mm, d |-> dd] : mm \in S, dd \in 0..5}
-Vectors == CASE Part = "single" -> AllD(Single) [] Part = "triples" -> Triples [] Part = "deep" -> Deeps [] Part = "zero" -> Zeros [] Part = "nest" -> AllD(Nest \cup NestNames) [] Part = "long" -> AllD(Long)
+Vectors == CASE Part = "single" -> AllD(Single) [] Part = "triples" -> Triples [] Part = "deep" -> Deeps [] Part = "zero" -> Zeros [] Part = "nonflat" -> NonFlats [] Part = "nest" -> AllD(Nest \cup NestNames) [] Part = "long" -> AllD(Long)
              [] Part = "all" -> AllD(Single \cup Nest \cup NestNames \cup Long) \cup UNION {Pairs(k) : k \in Kinds}
              [] OTHER -> Pairs(Part)
 
@@ -95,6 +106,6 @@ Spec == Init /\ [][Next]_<<v, d>>
 \* the codec's own laws on every vector
 VecOK == /\ WellFormed(v)
          /\ Build(DetourOf(v, d)) = v            \* the script the C++ side executes leaves exactly this Message
-         /\ LET b == Flatten(v) u == Unflatten(b) IN u.ok /\ u.msg = v /\ Len(b) = FlattenedSize(v) /\ Flatten(u.msg) = b
+         /\ LET b == Flatten(v) u == Unflatten(b) IN u.ok /\ u.msg = Norm(v) /\ Len(b) = FlattenedSize(v) /\ Flatten(u.msg) = b /\ b = Flatten(Norm(v))
 Emit == PrintT("@@" \o ToJson([m |-> v, d |-> d, s |-> DetourOf(v, d), zero |-> HasZero(v), f45mini |-> F45mini(v), f45micro |-> F45micro(v), mb |-> IF F45micro(v) THEN Flatten(DropZeroRaw(v)) ELSE <<>>, b |-> Flatten(v), z |-> FlattenedSize(v), py |-> Common("python", v), pyn |-> Common("pynative", v), f38 |-> F38(v), f39 |-> F39(v)]))
 =============================================================================
